@@ -87,3 +87,49 @@ def random_clock_plan(rf, ms, max_iter):
     if jump:
         kinds.add("fwdjump")
     return vals, kinds
+
+
+# ------------------------------------------------------------------------------------------------ observed episodes
+def fixed_steps_needed(sp):
+    """iterations a fixed-step engine needs: first n with n*dt > t_max"""
+    tmax = sp["t_max"] if sp["t_max"] is not None else (sp["t_sample"][-1] if sp["t_sample"] else 0.0)
+    return int(tmax / sp["dt"]) + 1
+
+
+def observed_ops(rf, sp, kind, samples=True, readonly=True, post=True, cap=None, poison=None, outputs=1):
+    """op list of an observed episode: every action is followed by an observe"""
+    ops = []
+    if poison is not None:
+        ops.append(["poison", poison])
+    ops += [["setup"], ["observe"]]
+    if samples and rf.chance(0.3):
+        ops += [["sample"], ["observe"]]
+        if rf.chance(0.3):
+            ops += [["sample"], ["observe"]]
+    plan = []
+    for _ in range(rf.randint(1, 8)):
+        plan += [["iterate"], ["observe"]]
+        if samples and rf.chance(0.25):
+            plan += [["sample"], ["observe"]]
+            if rf.chance(0.2):
+                plan += [["sample"], ["observe"]]
+        if readonly and rf.chance(0.15):
+            plan += [[rf.choice(["progress", "is_complete"])], ["observe"]]
+    if cap is None:
+        if kind == "gillespie":
+            cap = 20 * sp["steps"] + 200
+        else:
+            cap = fixed_steps_needed(sp) + 5
+    ops.append(["drive", plan, cap])
+    if post:
+        for _ in range(rf.randint(0, 3)):
+            c = rf.wchoice([("iterate", 3), ("sample", 2), ("ro", 1)])
+            if c == "iterate":
+                ops += [["iterate"], ["observe"]]
+            elif c == "sample" and samples:
+                ops += [["sample"], ["observe"]]
+            elif readonly:
+                ops += [[rf.choice(["progress", "is_complete"])], ["observe"]]
+    for k in range(outputs):
+        ops.append(["output"])
+    return ops
